@@ -53,33 +53,43 @@ impl<T: Config> PlayerRegistry<T> {
     }
 
     pub(crate) fn local_player_handles(&self) -> Vec<PlayerHandle> {
-        self.handles
+        // `handles` is a hash map: sort, so that the result does not depend on its iteration order
+        let mut handles: Vec<PlayerHandle> = self
+            .handles
             .iter()
             .filter_map(|(k, v)| match v {
                 PlayerType::Local => Some(*k),
                 PlayerType::Remote(_) | PlayerType::Spectator(_) => None,
             })
-            .collect()
+            .collect();
+        handles.sort_unstable();
+        handles
     }
 
     pub(crate) fn remote_player_handles(&self) -> Vec<PlayerHandle> {
-        self.handles
+        let mut handles: Vec<PlayerHandle> = self
+            .handles
             .iter()
             .filter_map(|(k, v)| match v {
                 PlayerType::Remote(_) => Some(*k),
                 PlayerType::Local | PlayerType::Spectator(_) => None,
             })
-            .collect()
+            .collect();
+        handles.sort_unstable();
+        handles
     }
 
     pub(crate) fn spectator_handles(&self) -> Vec<PlayerHandle> {
-        self.handles
+        let mut handles: Vec<PlayerHandle> = self
+            .handles
             .iter()
             .filter_map(|(k, v)| match v {
                 PlayerType::Spectator(_) => Some(*k),
                 PlayerType::Local | PlayerType::Remote(_) => None,
             })
-            .collect()
+            .collect();
+        handles.sort_unstable();
+        handles
     }
 
     pub(crate) fn num_players(&self) -> usize {
@@ -97,14 +107,17 @@ impl<T: Config> PlayerRegistry<T> {
     }
 
     pub fn handles_by_address(&self, addr: T::Address) -> Vec<PlayerHandle> {
-        self.handles
+        let mut handles: Vec<PlayerHandle> = self
+            .handles
             .iter()
             .filter_map(|(h, player_type)| match player_type {
                 PlayerType::Remote(a) | PlayerType::Spectator(a) => Some((h, a)),
                 PlayerType::Local => None,
             })
             .filter_map(|(h, a)| if addr == *a { Some(*h) } else { None })
-            .collect()
+            .collect();
+        handles.sort_unstable();
+        handles
     }
 }
 
